@@ -365,6 +365,11 @@ pub fn replay(input: &Value) -> Vec<(String, String)> {
 			symlink_leg(&mut o);
 			o.violations.into_iter().map(|c| (c.key, c.detail)).collect()
 		}
+		"history-leg" => {
+			let mut o = EnumOut::new("replay");
+			history_leg(&mut o);
+			o.violations.into_iter().map(|c| (c.key, c.detail)).collect()
+		}
 		"root-leg" => {
 			// re-run the whole (small) filesystem-root leg and report its violations
 			let mut o = EnumOut::new("replay");
@@ -513,6 +518,7 @@ pub fn run(tier: Tier, seed: u64) -> EnumOut {
 	}
 	root_leg(&mut out);
 	symlink_leg(&mut out);
+	history_leg(&mut out);
 	out.extra.insert("marker_names".into(), json!(names.len() - DECOYS.len()));
 	out.extra.insert("decoy_names".into(), json!(DECOYS.len()));
 	out.extra.insert("project_types".into(), json!(TYPES.len()));
@@ -532,6 +538,107 @@ pub fn run(tier: Tier, seed: u64) -> EnumOut {
 // never a verdict) when chroot(2) is not permitted.
 
 const ROOT_CASES: [(&str, bool); 4] = [("", false), ("Cargo.toml", false), (".git", true), ("package.json", false)];
+
+/// History leg: `origins()` and `types()` answer from the directory as it is *now*. A directory
+/// is inspected, its markers are replaced, and it is inspected again; the second answers must
+/// equal those for a fresh directory (never seen before) holding the same markers. Every
+/// ordered pair of six markers, and every order of the two calls before the change.
+fn history_leg(out: &mut EnumOut) {
+	const MARKS: [(&str, bool); 6] = [("Cargo.toml", false), (".git", true), ("package.json", false), (".hg", true), ("go.mod", false), ("Gemfile", false)];
+	let scratch = Scratch::new("c20-hist");
+	let rt = tokio::runtime::Builder::new_current_thread().enable_all().build().expect("runtime");
+	let root = std::fs::canonicalize(scratch.path()).unwrap_or_else(|_| scratch.path().to_path_buf());
+	let place = |d: &Path, (m, is_dir): (&str, bool)| {
+		if is_dir {
+			let _ = std::fs::create_dir_all(d.join(m));
+		} else {
+			let _ = std::fs::write(d.join(m), b"");
+		}
+	};
+	let unplace = |d: &Path, (m, is_dir): (&str, bool)| {
+		if is_dir {
+			let _ = std::fs::remove_dir_all(d.join(m));
+		} else {
+			let _ = std::fs::remove_file(d.join(m));
+		}
+	};
+	let names = |t: std::collections::HashSet<project_origins::ProjectType>| {
+		let mut v: Vec<String> = t.into_iter().map(|t| format!("{t:?}")).collect();
+		v.sort();
+		v
+	};
+	let below = |o: std::collections::HashSet<PathBuf>, base: &Path| {
+		let mut v: Vec<String> = o.into_iter().filter_map(|p| p.strip_prefix(base).ok().map(|r| r.to_string_lossy().into_owned())).collect();
+		v.sort();
+		v
+	};
+	let mut cases = 0u64;
+	let input = json!({"kind": "history-leg"});
+	for (ai, a) in MARKS.iter().enumerate() {
+		for (bi, b) in MARKS.iter().enumerate().map(|(i, b)| (i, Some(*b))).chain([(99, None)]) {
+			if Some(*a) == b {
+				continue;
+			}
+			// 0: origins only; 1: origins then types; 2: origins twice; 3: types then origins
+			for before in 0..4 {
+				cases += 1;
+				out.states += 1;
+				out.evaluations += 1;
+				let base = root.join(format!("h{ai}-{bi}-{before}"));
+				let (d, fresh) = (base.join("seen/proj"), base.join("fresh/proj"));
+				let _ = std::fs::create_dir_all(d.join("sub"));
+				let _ = std::fs::create_dir_all(fresh.join("sub"));
+				place(&d, *a);
+				match before {
+					0 => {
+						rt.block_on(project_origins::origins(d.join("sub")));
+					}
+					1 => {
+						rt.block_on(project_origins::origins(d.join("sub")));
+						rt.block_on(project_origins::types(&d));
+					}
+					2 => {
+						rt.block_on(project_origins::origins(d.join("sub")));
+						rt.block_on(project_origins::origins(&d));
+					}
+					_ => {
+						rt.block_on(project_origins::types(&d));
+						rt.block_on(project_origins::origins(d.join("sub")));
+					}
+				}
+				unplace(&d, *a);
+				if let Some(b) = b {
+					place(&d, b);
+					place(&fresh, b);
+				}
+				let what = format!("{} replaced by {}", a.0, b.map_or("nothing", |b| b.0));
+				let (t_seen, t_fresh) = (names(rt.block_on(project_origins::types(&d))), names(rt.block_on(project_origins::types(&fresh))));
+				if t_seen != t_fresh {
+					out.violate(
+						format!("C20/types/stale-after-change/{}", if t_seen.len() > t_fresh.len() || b.is_none() { "reports-a-removed-marker" } else { "misses-or-mixes" }),
+						format!("{what} in a directory inspected before the change: types() = {t_seen:?}, but a fresh directory with the same content gives {t_fresh:?}"),
+						input.clone(),
+					);
+				}
+				let (o_seen, o_fresh) = (below(rt.block_on(project_origins::origins(d.join("sub"))), &base.join("seen")), below(rt.block_on(project_origins::origins(fresh.join("sub"))), &base.join("fresh")));
+				if o_seen != o_fresh {
+					out.violate(
+						"C20/origins/stale-after-change".to_string(),
+						format!("{what} in a directory inspected before the change: origins() below the base = {o_seen:?}, a fresh directory with the same content gives {o_fresh:?}"),
+						input.clone(),
+					);
+				}
+				if b.is_some() && (t_seen.is_empty() || o_seen.is_empty()) {
+					// keeps the leg honest: the replacement marker must be recognised at all
+					out.violate("C20/history-leg/marker-not-recognised".to_string(), format!("{what}: types() = {t_seen:?}, origins() = {o_seen:?}"), input.clone());
+				}
+				out.nontrivial_mark(("history", ai, bi, before));
+				let _ = std::fs::remove_dir_all(&base);
+			}
+		}
+	}
+	out.extra.insert("history_leg".into(), json!(format!("{cases} (marker, replacement, earlier calls) cases: answers after a change equal those of a fresh directory")));
+}
 
 /// Symlinked-chain leg: the chain is the *given* path and its (lexical) ancestors. A start
 /// path that runs through a symlinked directory must give origins on that spelled chain, not
